@@ -83,7 +83,7 @@ PROPS = {
         'title': 'Typestate and dynamic modes are observationally equivalent',
         'level_text': "Proof (C09.handle_is_typed, typed_method_iff, error_correspondence): for every state, declared event, payload, history and hook environment, handle runs exactly the typed method that exists for that event on the current state (same hook trace, same resulting machine, guard-failed/action-failed errors mapped with the same names, panics propagating) and an event has no typed method on the current state exactly when the wrapper refuses it as an invalid transition. RefineReply.step_reply / replies_refine: along every history under scripted hooks, each reply of handle is exactly the abstract machine's reply - Ok, InvalidTransition{from: current leaf, event} when no edge, the first vetoing around callback's error, else GuardFailed naming the first guard answering false / unless-condition answering true and the declared event.",
         'level_note': 'Same side conditions as C01. Ties: T2 region HD, T3 (same operations through handle and through into_<s>/typed call/into_dynamic).',
-        'modules': ['SMV.Props.C09', 'SMV.Props.RefineReply', 'SMV.Props.RefineTyped'],
+        'modules': ['SMV.Props.C09', 'SMV.Props.RefineReply', 'SMV.Props.RefineTyped', 'SMV.Props.RefineMixed'],
         'regions': ['HD', 'EV', 'SIG'],
         't3': ['walk', 'assign'],
         't5': True,
@@ -91,9 +91,9 @@ PROPS = {
     },
     'C10': {
         'title': 'Mode conversions are exact and lossless',
-        'level_text': "Proof (C10.into_dynamic_state, extract_iff, extract_method, roundtrip, default_is_new, conversions_silent, conversion_step, conversion_chain): into_dynamic wraps the machine unchanged under its own state's variant; into_<s> succeeds iff the wrapper is in s and otherwise (poisoned included) hands the wrapper back unchanged; both round trips are the identity; conversions run no hook and drop nothing; Default is new(Default::default()).",
+        'level_text': "Proof (C10.into_dynamic_state, extract_iff, extract_method, roundtrip, default_is_new, conversions_silent, conversion_step, conversion_chain): into_dynamic wraps the machine unchanged under its own state's variant; into_<s> succeeds iff the wrapper is in s and otherwise (poisoned included) hands the wrapper back unchanged; both round trips are the identity; conversions run no hook and drop nothing; Default is new(Default::default()). RefineMixed.mixed_refines_spec: along every history in which the caller dispatches events through whichever mode it holds (handle, or the typed method when it exists) and converts between the modes at will, the state follows the abstract machine over the dispatched events, each dispatch is accepted exactly when the abstract machine accepts it, and every conversion succeeds and changes nothing.",
         'level_note': 'Ties: T2 regions ID EX DF DN, T3 walk (into/todyn interleaved with transitions, concrete context + data).',
-        'modules': ['SMV.Props.C10'],
+        'modules': ['SMV.Props.C10', 'SMV.Props.RefineMixed'],
         'regions': ['ID', 'EX', 'DF', 'DN'],
         't3': ['walk', 'abandon'],
         'design_ref': 'DESIGN.md §7 C10',
